@@ -4,7 +4,7 @@ import Hv.Generated.FactsC17
 namespace Hv.C17
 
 /-- The kernel-checked decision for the facts extracted from /repo on this run. -/
-theorem verdict : (classify Generated.factsC17).Sound (Holds (cfgOf Generated.factsC17) Generated.factsC17.handlers)
+theorem verdict : (classify Generated.factsC17).Sound (Holds (cfgOf Generated.factsC17) Generated.factsC17.handlers (ceaseOf Generated.factsC17) (closeOf Generated.factsC17))
     (HoldsPartial (cfgOf Generated.factsC17) Generated.factsC17.handlers) :=
   classify_sound _
 
@@ -13,6 +13,9 @@ theorem verdict : (classify Generated.factsC17).Sound (Holds (cfgOf Generated.fa
 #print axioms no_lost_wakeup
 #print axioms holds_good
 #print axioms defer_balance
+#print axioms defer_balance_autodestroy
+#print axioms refutes_destroyHoldingVigil
+#print axioms refutes_closeAborts
 #print axioms graceful_any
 #print axioms refutes_current
 #print axioms witness_stuck
